@@ -82,6 +82,92 @@ func implDecodeAll(enc mice.Encoding, stream []byte, digest string, limit uint64
 	return out, err, nil
 }
 
+// c14Consumers are the ways the decoder is drained besides io.ReadAll.
+var c14Consumers = []struct {
+	name string
+	slow bool
+}{{"io.Copy", false}, {"io.CopyBuffer(3)", true}, {"Read(1-byte buffer)", true}, {"Read(rs+1 bytes, zero-length reads between)", false}, {"iotest-style OneByteReader source", true}}
+
+type c14PlainWriter struct{ b []byte }
+
+func (w *c14PlainWriter) Write(p []byte) (int, error) { w.b = append(w.b, p...); return len(p), nil }
+
+type c14OneByteSource struct{ r io.Reader }
+
+func (s c14OneByteSource) Read(p []byte) (int, error) {
+	if len(p) == 0 {
+		return 0, nil
+	}
+	return s.r.Read(p[:1])
+}
+
+// implDecodeVia drains the implementation's decoder with the named consumer.
+func implDecodeVia(enc mice.Encoding, stream []byte, digest string, limit uint64, via string) (out []byte, err error, panicked interface{}) {
+	defer func() {
+		if r := recover(); r != nil {
+			panicked = r
+		}
+	}()
+	var src io.Reader = bytes.NewReader(stream)
+	if via == "iotest-style OneByteReader source" {
+		src = c14OneByteSource{src}
+	}
+	dec, err := enc.NewDecoder(src, digest, limit)
+	if err != nil {
+		return nil, fmt.Errorf("NewDecoder: %v", err), nil
+	}
+	switch via {
+	case "io.Copy":
+		// a destination without ReadFrom, so that only the decoder's own methods decide the path
+		w := &c14PlainWriter{}
+		_, err = io.Copy(w, dec)
+		return w.b, err, nil
+	case "io.CopyBuffer(3)":
+		w := &c14PlainWriter{}
+		_, err = io.CopyBuffer(w, dec, make([]byte, 3))
+		return w.b, err, nil
+	case "iotest-style OneByteReader source":
+		out, err = io.ReadAll(dec)
+		return out, err, nil
+	}
+	bufLen := 1
+	if via != "Read(1-byte buffer)" {
+		bufLen = 0 // set from the stream's record size below
+		if len(stream) >= 8 {
+			var rs uint64
+			for _, b := range stream[:8] {
+				rs = rs<<8 | uint64(b)
+			}
+			if rs < 1<<20 {
+				bufLen = int(rs) + 1
+			}
+		}
+		if bufLen == 0 {
+			bufLen = 5
+		}
+	}
+	buf := make([]byte, bufLen)
+	for steps := 0; steps < 1<<22; steps++ {
+		if bufLen > 1 {
+			if n0, e0 := dec.Read(nil); n0 != 0 || (e0 != nil && e0 != io.EOF) {
+				return out, fmt.Errorf("zero-length Read returned (%d, %v)", n0, e0), nil
+			}
+		}
+		n, e := dec.Read(buf)
+		if n < 0 || n > len(buf) {
+			return out, fmt.Errorf("Read returned n=%d for a %d-byte buffer", n, len(buf)), nil
+		}
+		out = append(out, buf[:n]...)
+		if e == io.EOF {
+			return out, nil, nil
+		}
+		if e != nil {
+			return out, e, nil
+		}
+	}
+	return out, fmt.Errorf("decoder never reported the end"), nil
+}
+
 func implEncode(enc mice.Encoding, payload []byte, rs int) (stream []byte, digest string, err error, panicked interface{}) {
 	defer func() {
 		if r := recover(); r != nil {
@@ -162,6 +248,19 @@ func c14Case(c *mc.Ctx, hname string, d miDraft, rs, n, pat int) {
 		c.Outcome("VIOLATION round trip")
 		c.Fail(key+":roundtrip", "decode(encode(payload)) with the returned digest is not the payload", desc+" payload="+hx(payload), hx(payload)+" then clean EOF", fmt.Sprintf("%s err=%v", hx(out), derr))
 		return
+	}
+	// the same round trip through the other ways a consumer drains an io.Reader
+	for _, via := range c14Consumers {
+		if n > 4096 && via.slow {
+			continue
+		}
+		out, derr, pn := implDecodeVia(d.impl, gotStream, gotDigest, c14Limit, via.name)
+		c.Transitions(1)
+		if pn != nil || derr != nil || !bytes.Equal(out, payload) {
+			c.Outcome("VIOLATION round trip (" + via.name + ")")
+			c.Fail(key+":roundtrip-"+via.name, "decode(encode(payload)) drained with "+via.name+" is not the payload followed by a clean end", desc+" payload="+hx(payload), hx(payload)+" then clean EOF", fmt.Sprintf("%s err=%v panic=%v", hx(out), derr, pn))
+			return
+		}
 	}
 	// the reference decoder on the implementation's output
 	res := refmice.DecodeDetail(d.ref, gotStream, gotDigest, c14Limit)
